@@ -200,7 +200,7 @@ elif drv is None:
     ck.violation("extracted model/driver does not build", {"correspondence": "ocaml/C18_driver.ml", "log": dlog[-2000:]},
                  no_input=True)
 else:
-    env = dict(os.environ, ASAN_OPTIONS="detect_leaks=1:abort_on_error=0", UBSAN_OPTIONS="print_stacktrace=1")
+    env = dict(os.environ, ASAN_OPTIONS="detect_leaks=1:abort_on_error=1", UBSAN_OPTIONS="print_stacktrace=1:abort_on_error=1")
     jobs = [(exe, cf) for cf in casefiles] + [(drv, cf) for cf in casefiles]
     with ThreadPoolExecutor(max_workers=4) as ex:
         results = list(ex.map(lambda j: verif.sh([j[0], j[1]], timeout=TMO, env=env), jobs))
